@@ -43,3 +43,19 @@ CHECKS["C02"] = dict(
     assumptions=["'accepts the whole encoding' is read as: Unpack of the complete encoding returns no error and consumes no more than its length"],
     jobs=[dict(name="pure", pkg="./pure", go=GO, test="TestC02", shards=(2, 16), checks=(40000, 600000), timeout=(300, 3000))],
 )
+
+CHECKS["C01"] = dict(
+    rule=("inputs are derived constructively from reference-encoded valid frames of all 15 services (+ an unknown one) x 11 cEMI kinds: "
+          "every truncation and every single (and, for a quarter, pairwise) length-octet overwrite enumerated per frame; rapid-drawn "
+          "truncations, length-octet overwrites, bit flips, insert/delete, splices, trailing garbage, raw bodies, generated DIB lists "
+          "with disagreeing lengths; fed to knxnet.Unpack, cemi.Unpack and every exported Unpack method. Each input is decoded in "
+          "four buffer contexts (exact capacity; prefix of a 0x00-, 0xFF- and remnant-filled larger buffer). Non-trivial = input that is "
+          "not an unmodified valid encoding and (for knxnet.Unpack) has a valid header with a known service id; distinct by (target, bytes)."),
+    level_text=("Generated-input search with a four-way differential oracle (no panic, no hang by watchdog, n <= len, outcome "
+                "independent of bytes beyond the input) plus live-socket receiver histories; exhaustive per frame on truncations "
+                "and length-octet overwrites, sampled elsewhere; native coverage-guided fuzzing in the thorough tier."),
+    level_note="Trusted: harness/common/ref.go for the positions of the length octets; the watchdog limit (4 s for a microsecond-scale call). Inputs above 1024 bytes are not generated.",
+    technique="rapid constructive mutation + exhaustive truncation/length sweeps + go native fuzzing, four-way buffer differential oracle; live UDP/TCP receiver histories with markers",
+    assumptions=["a hang is declared when one synchronous decode call has not returned after 4 s"],
+    jobs=[dict(name="pure", pkg="./pure", go=GO, test="TestC01", shards=(4, 16), checks=(30000, 400000), scale=(1, 4), timeout=(300, 3000))],
+)
